@@ -38,6 +38,14 @@ def gen_cases(tier, seed):
                     cases.append({"t": "eof", "N": N, "ivl": ivl, "size": size, "recover": [j, order, "phase2"]})
             cases.append({"t": "fin", "N": N, "ivl": ivl, "size": size, "recover": None})
             for t in ("eof", "fin"):
+                if ivl >= 0.004 and size:
+                    # a PDU which is no progress for the running procedure arrives in the middle of an interval (a NAK at the sender awaiting
+                    # the ACK of its EOF; the re-sent EOF at the receiver awaiting the ACK of its Finished): answered, but the count goes on
+                    for ph, e in [("phase1", e) for e in range(1, N + 1)] + [("phase2", 1), ("phase2", N)]:
+                        cases.append({"t": t, "N": N, "ivl": ivl, "size": size, "recover": None, "distract": [ph, e]})
+                        if t == "eof":
+                            # the user issues a put request towards another (differently configured) entity: refused, the handler is busy
+                            cases.append({"t": t, "N": N, "ivl": ivl, "size": size, "recover": None, "distract": [ph, e, "put"]})
                 cases.append({"t": t, "N": N, "ivl": ivl, "size": size, "recover": None, "other_entity": True})
                 cases.append({"t": t, "N": N, "ivl": ivl, "size": size, "recover": None, "prev_ivl": ivl * 5})
                 cases.append({"t": t, "N": N, "ivl": ivl, "size": size, "recover": None, "prev_ivl": max(0.001, ivl / 5)})
@@ -50,6 +58,9 @@ def gen_cases(tier, seed):
         for imm, md_missing in itertools.product((True, False), (False, True)):
             for Na in (1, 2, 3):
                 cases.append({"t": "nak", "N": N, "Na": Na, "ivl": ivl, "imm": imm, "md_missing": md_missing, "progress": None})
+            if ivl >= 0.004:
+                for e in sorted({1, N}):
+                    cases.append({"t": "nak", "N": N, "Na": 2, "ivl": ivl, "imm": imm, "md_missing": md_missing, "progress": None, "distract": e})
             for j in range(1, N):
                 for what in (["fd"] if not md_missing else ["md", "fd_before_md"]):
                     cases.append({"t": "nak", "N": N, "Na": 2, "ivl": ivl, "imm": imm, "md_missing": md_missing, "progress": [j, what]})
@@ -219,8 +230,34 @@ def run_positive_ack(case, side):
 
         cur_raw = first["raw"]
         t_reset = vclock.now_ms()
+        dis = case.get("distract")
         for phase in ("phase1", "phase2"):
             for e in range(1, N + 1):
+                if dis and dis[0] == phase and dis[1] == e:
+                    vclock.advance(t_reset + ivl_ms // 2 - vclock.now_ms())
+                    if len(dis) > 2:
+                        p.since()
+                        try:
+                            acc = w.put_to_third()
+                        except Exception as ex:  # noqa: BLE001
+                            acc = type(ex).__name__
+                        ep.outbox.clear()
+                        tx, gfh, gfins = p.since()
+                        if acc is not False or tx or gfh or gfins:
+                            p.viol.append({"clause": "put-request-while-busy-not-refused-quietly", "returned": acc, "tx": [wire.short(t["d"]) for t in tx]})
+                        obs["refused_put_requests_mid_interval"] = obs.get("refused_put_requests_mid_interval", 0) + 1
+                        raw = None
+                    elif side == "S":
+                        raw, want_kinds = pdugen.raw("NAK", tc, {"scope": (0, case["size"]), "reqs": [(0, 4)]}), ["FD"]
+                    else:
+                        raw, want_kinds = pdugen.raw("EOF", tc, {"size": case["size"], "cksum": models.checksum("crc32", w.data[: case["size"]])}), ["ACK_EOF"]
+                    if raw is not None:
+                        tx, gfh, gfins = p.call(raw)
+                        if [t["d"].get("kind") for t in tx] != want_kinds or gfh or gfins:
+                            p.viol.append({"clause": "non-progress-pdu-not-answered-as-expected", "when": f"{phase}:before-expiry-{e}",
+                                           "tx": [wire.short(t["d"]) for t in tx], "want": want_kinds, "fh": gfh, "fins": gfins})
+                    p.expect_nothing(f"{phase}:call-after-non-progress-event")
+                    obs["non_progress_pdus_mid_interval"] = obs.get("non_progress_pdus_mid_interval", 0) + 1
                 if rec and rec[2] == phase and rec[0] == e:
                     recovered(phase, e, t_reset)
                     obs["expiries"] = p.expiries
@@ -361,6 +398,14 @@ def run_nak(case):
                 obs["progress_resets_checked"] = 1
                 e = 1
                 continue
+            if case.get("distract") == e:
+                vclock.advance(t_reset + ivl_ms // 2 - vclock.now_ms())
+                tx, gfh, gfins = p.call(eof)
+                if [t["d"].get("kind") for t in tx] != ["ACK_EOF"] or gfh or gfins:
+                    p.viol.append({"clause": "non-progress-pdu-not-answered-as-expected", "when": f"nak:before-expiry-{e}",
+                                   "tx": [wire.short(t["d"]) for t in tx], "want": ["ACK_EOF"], "fh": gfh, "fins": gfins})
+                p.expect_nothing("nak:call-after-non-progress-pdu")
+                obs["non_progress_pdus_mid_interval"] = obs.get("non_progress_pdus_mid_interval", 0) + 1
             got = p.expiry(t_reset, ivl_ms, f"nak:expiry-{e}")
             t_reset = vclock.now_ms()
             if e < N:
@@ -479,4 +524,4 @@ def exhaustive(tier):
 
 
 REQUIRED = {"eof_scenarios": 20, "fin_scenarios": 20, "nak_scenarios": 20, "limit_faults_checked": 50, "abandons_checked": 50,
-            "resends_checked": 50, "eof_cancel_mid_file_resends_checked": 10, "scenarios_on_reused_handler_with_retuned_interval": 10, "scenarios_next_to_other_entity_with_own_fault_table": 10, "progress_resets_checked": 4, "nak_sequence_fills_last_pdu_exactly": 10, "nak_sequence_pdus_1": 10, "nak_sequence_pdus_2": 10, "recovered_runs": 10, "cut_runs": 50, "cut_limit_faults": 10}
+            "resends_checked": 50, "eof_cancel_mid_file_resends_checked": 10, "scenarios_on_reused_handler_with_retuned_interval": 10, "scenarios_next_to_other_entity_with_own_fault_table": 10, "progress_resets_checked": 4, "nak_sequence_fills_last_pdu_exactly": 10, "nak_sequence_pdus_1": 10, "nak_sequence_pdus_2": 10, "recovered_runs": 10, "non_progress_pdus_mid_interval": 20, "refused_put_requests_mid_interval": 10, "cut_runs": 50, "cut_limit_faults": 10}
